@@ -14,6 +14,7 @@ fn sym_of(v: &Value) -> Sym { Sym { radial: v["k"] == json!("R"), el: v["el"].as
 fn sym_json(s: &Sym) -> Value { if s.radial { json!({"k": "R", "el": s.el, "vol": s.vol, "id": s.id}) } else { json!({"k": "M", "el": 0, "vol": 0, "id": 0}) } }
 
 pub const DATE: u16 = 19_800;
+pub const EXACT_ID: u64 = 70_000_000;
 
 /// The model's pattern tokens are positive (0 = "no volume block"); on the wire token 35 is the pattern NUMBER 0,
 /// so that a first volume block carrying number 0 is part of every run (the number is data, not a presence flag).
@@ -32,6 +33,26 @@ pub fn frame(l: &Layouts, rng: &mut Rng, s: &Sym, k: usize) -> Vec<u8> {
     }
     let mut f = crate::frames::msg_header_bytes(31, k as u16, 0xFFFF);
     let mut blocks: Vec<Block> = Vec::new();
+    if s.id >= EXACT_ID {
+        // a radial whose frame is exactly 1,216 bytes (half a fixed frame): two of them and 133 metadata frames make a record of
+        // exactly 134 x 2,432 bytes -- the size of the metadata record that leads every real volume
+        if s.vol != 0 { let mut b = random_block(l, rng, "VOL", 0, 8, 0); b.rec.insert("volume_coverage_pattern_number".into(), wire_vcp(s.vol).to_be_bytes().to_vec()); blocks.push(b); }
+        blocks.push(random_block(l, rng, "ELV", 0, 8, 0));
+        blocks.push(random_block(l, rng, "RAD", 0, 8, 0));
+        blocks.push(random_block(l, rng, "REF", if s.vol != 0 { 1020 } else { 1076 }, 8, 0));
+        let mut hdr = l.get("drd_header").random(rng);
+        hdr.insert("elevation_number".into(), vec![s.el]);
+        hdr.insert("date".into(), DATE.to_be_bytes().to_vec());
+        hdr.insert("time".into(), (s.id as u32).to_be_bytes().to_vec());
+        hdr.insert("azimuth_number".into(), ((s.id % 65_536) as u16).to_be_bytes().to_vec());
+        hdr.insert("azimuth_angle".into(), ((s.id % 720) as f32 * 0.5).to_bits().to_be_bytes().to_vec());
+        hdr.insert("elevation_angle".into(), (s.el as f32 * 0.1).to_bits().to_be_bytes().to_vec());
+        for b in blocks.iter_mut() { if is_moment(&b.p) { b.rec.insert("scale".into(), 2.0f32.to_bits().to_be_bytes().to_vec()); b.rec.insert("offset".into(), 66.0f32.to_bits().to_be_bytes().to_vec()); } }
+        let ptrs: Vec<usize> = (0..blocks.len()).collect();
+        f.extend_from_slice(&build_message(l, &hdr, &blocks, &ptrs));
+        if f.len() != 1216 { eprintln!("scan: exact radial frame is {} bytes", f.len()); std::process::exit(2); }
+        return f;
+    }
     if s.vol != 0 { let mut b = random_block(l, rng, "VOL", 0, 8, 0); b.rec.insert("volume_coverage_pattern_number".into(), wire_vcp(s.vol).to_be_bytes().to_vec()); blocks.push(b); }
     let all_blocks = s.vol != 0 && s.id % 3 == 0;      // a full ten-block radial every so often
     for p in ["ELV", "RAD", "REF", "VEL", "SW", "ZDR", "PHI", "RHO", "CFP"] {
@@ -145,6 +166,18 @@ pub fn run(args: &Args) {
                 // random record split (empty records allowed)
                 let mut recs: Vec<Vec<Sym>> = vec![vec![]];
                 for s in stream { if rng.chance(1, 40) { recs.push(vec![]); if rng.chance(1, 10) { recs.push(vec![]); } } recs.last_mut().expect("rec").push(s); }
+                if k == 8 {
+                    // the shape of a real volume: a leading record of exactly 134 metadata frames; and, further on, a record of the
+                    // very same size (133 metadata frames + two half-frame radials) that does carry radials
+                    let m = || Sym { radial: false, el: 0, vol: 0, id: 0 };
+                    let lead: Vec<Sym> = (0..134).map(|_| m()).collect();
+                    let last_el = recs.iter().flatten().filter(|s| s.radial).last().map(|s| s.el).unwrap_or(1);
+                    let mut twin: Vec<Sym> = (0..133).map(|_| m()).collect();
+                    twin.push(Sym { radial: true, el: last_el, vol: 215, id: EXACT_ID + 1 });
+                    twin.push(Sym { radial: true, el: last_el.wrapping_add(1).max(1), vol: 0, id: EXACT_ID + 2 });
+                    recs.insert(0, lead);
+                    recs.push(twin);
+                }
                 if k == 4 {
                     // one LDM record whose decompressed payload exceeds 4 MiB (1,730 metadata frames of 2,432 bytes ahead of its radials)
                     let mut big: Vec<Sym> = (0..1730).map(|_| Sym { radial: false, el: 0, vol: 0, id: 0 }).collect();
